@@ -303,11 +303,12 @@ def native_clauses(n, e, s=None, orc=None):
     """{clause key: observed text} for the clauses that FAIL natively on this facet set (empty dict: all hold)."""
     from chmpy.crystal.wulff import WulffConstruction
     bad = {}
+    n_given = np.asarray(n)                 # passed to the constructor with the caller's dtype (integer-typed normals are legitimate input)
     n = np.asarray(n, float)
     e = np.asarray(e, float)
     sc = float(e.max())
     try:
-        w = WulffConstruction(n.copy(), e.copy())
+        w = WulffConstruction(n_given.copy(), e.copy())
         V = np.asarray(w.wulff_vertices, float)
         T = np.asarray(w.wulff_triangles).astype(int)
         TI = np.asarray(w.wulff_triangle_indices).astype(int)
@@ -380,7 +381,7 @@ def native_clauses(n, e, s=None, orc=None):
     if s is not None:
         ev += 1
         try:
-            w2 = WulffConstruction(n.copy(), e.copy() * s)
+            w2 = WulffConstruction(n_given.copy(), e.copy() * s)
             V2 = np.asarray(w2.wulff_vertices, float)
             t2 = V2[np.asarray(w2.wulff_triangles).astype(int)]
             vol2 = float(np.einsum("ij,ij->i", t2[:, 0], np.cross(t2[:, 1], t2[:, 2])).sum() / 6)
@@ -405,7 +406,9 @@ def degenerate_cases(rng, tier):
     def prism(m, phase=0.0):
         a = np.arange(m) * 2 * np.pi / m + phase
         return np.vstack([np.c_[np.cos(a), np.sin(a), 0 * a], [[0, 0, 1], [0, 0, -1]]])
+    icube = np.array([[1, 0, 0], [-1, 0, 0], [0, 1, 0], [0, -1, 0], [0, 0, 1], [0, 0, -1]], dtype=int)     # integer-typed normals, as in the library's own cube test
     out = [("cube", cube, np.ones(6)), ("cube e=1.7", cube, 1.7 * np.ones(6)), ("box", cube, np.array([1, 1.5, 1.2, 1.2, 2, 1.0])),
+           ("integer-typed normals, cube e=1.25", icube, 1.25 * np.ones(6)), ("integer-typed normals, prism", icube, np.array([1.0, 1.0, 1.0, 1.0, 1.5, 1.5])),
            ("octahedron", octa, np.ones(8)), ("rhombic dodecahedron", dod, np.ones(12)),
            ("cube + cut-off {111}", np.vstack([cube, octa]), np.r_[np.ones(6), 2 * np.ones(8)]),
            ("cube + tangent {111}", np.vstack([cube, octa]), np.r_[np.ones(6), np.sqrt(3) * np.ones(8)]),
